@@ -218,9 +218,9 @@ const EPOCHS: &[u64] = &[
     31535999,           // 2000-12-30T23:59:59
     31622399,           // 2000-12-31T23:59:59 (leap year end)
     31622400,           // 2001-01-01
-    1577836799,         // 2049-12-31T23:59:59
-    1577836800,         // 2050-01-01T00:00:00
-    1577836801,
+    1577923199,         // 2049-12-31T23:59:59
+    1577923200,         // 2050-01-01T00:00:00
+    1577923201,
     3155760000,         // 2100-01-01 (no leap day in 2100)
     3160857599,         // 2100-02-28T23:59:59
     3160857600,         // 2100-03-01
@@ -255,7 +255,7 @@ fn gen_prim(r: &mut Rng, out: &mut Out, big: bool) -> String {
             } else {
                 r.below(252455616000)
             };
-            out.stat(if e >= 1577836800 { "der_time_generalized" } else { "der_time_utc" }, 1);
+            out.stat(if e >= 1577923200 { "der_time_generalized" } else { "der_time_utc" }, 1);
             format!("time:{}", e)
         }
         11 => {
@@ -568,8 +568,8 @@ fn gen_rec(r: &mut Rng, out: &mut Out) -> Rec {
     }
     let epoch = |r: &mut Rng| -> u32 {
         match r.below(4) {
-            0 => *r.pick(&[0u32, 1, 1577836799, 1577836800, 1577836801, u32::MAX, 5097600, 3160857600]),
-            1 => 1577836800u32.wrapping_add(r.below(5) as u32).wrapping_sub(2),
+            0 => *r.pick(&[0u32, 1, 1577923199, 1577923200, 1577923201, u32::MAX, 5097600, 3160857600]),
+            1 => 1577923200u32.wrapping_add(r.below(5) as u32).wrapping_sub(2),
             _ => r.next() as u32,
         }
     };
